@@ -1,6 +1,8 @@
 package main
 
 import (
+	"fmt"
+
 	"d2v/harness/hl"
 	"d2v/harness/semlib"
 )
@@ -63,6 +65,26 @@ func run(c *hl.Ctx) error {
 		} else {
 			c.Count("idx:case:with-deletions")
 		}
+		c.Emit(dc)
+	}
+	// deletion followed by a new parallel connection, then a reference to the highest index (the IR index space after deletions)
+	t := c.Pick(300, 10000)
+	names := []string{"a", "b", "c", "p.q", "A"}
+	for i := 0; i < t; i++ {
+		g := semlib.New(r, semlib.Opts{MaxDecls: 8, MaxDepth: 2, Underscore: false, ErrSeeds: false, Nulls: false, EdgeHeavy: i%2 == 0})
+		src := g.Program()
+		x, y := names[r.Intn(len(names))]+"x", names[r.Intn(len(names))]+"y"
+		n := 2 + r.Intn(3)
+		for j := 0; j < n; j++ {
+			src += x + " -> " + y + "\n"
+		}
+		src += fmt.Sprintf("(%s -> %s)[%d]: null\n%s -> %s\n", x, y, r.Intn(n), x, y)
+		dc := semlib.C11DiffEdge(src, x, y, false, true, n-1)
+		if _, ok := dc["in"].(map[string]any)["esrc"]; !ok {
+			c.Count("idx:delete-then-add:skipped")
+			continue
+		}
+		c.Count("idx:case:delete-then-add")
 		c.Emit(dc)
 	}
 	k := c.Pick(800, 40000)
